@@ -308,6 +308,10 @@ class ContractMixin:
             ty = args[0].obj if isinstance(args[0], Callable_) else args[0]
             nm = z3.simplify(args[1].t).as_string()
             return Val(ty, [z3.Const("ghost!%s!%d" % (nm, i), srt) for i, srt in enumerate(ty.comps())])
+        if name == "str_encode":
+            return Val(TBytes(), [self.str_encode(args[0].t, z3.simplify(args[1].t).as_string(), st)])
+        if name == "bytes_decode":
+            return mk_str(self.bytes_decode(args[0].t, z3.simplify(args[1].t).as_string(), st))
         if name == "as_any":
             return coerce(args[0], TOpaque("Any"))
         if name == "as_data":
